@@ -330,6 +330,30 @@ def action_sites(F, f, action):
     return []
 
 
+def _terms_included(want, got):
+    """multiset inclusion of controlling terms; a term is 'atoms@outcome' -- equal atoms match when the outcomes are equal
+    or one side has none (an outcome the analysis could not name claims nothing)"""
+    rest = list(got)
+    pending = []
+    for w in want:
+        if w in rest:
+            rest.remove(w)
+        else:
+            pending.append(w)
+    for w in pending:
+        wa, _, wp = w.partition('@')
+        hit = None
+        for g in rest:
+            ga, _, gp = g.partition('@')
+            if ga == wa and (not wp or not gp):
+                hit = g
+                break
+        if hit is None:
+            return False
+        rest.remove(hit)
+    return True
+
+
 def check_guards(ctx, rid, prop):
     """reviewed guards: the set of conditions under which a reviewed action executes (dropping or adding a conjunct changes it)"""
     r = ctx.rule(rid, 'GUARD', 'guard census: each reviewed action executes under exactly the reviewed set of tests (a dropped or added conjunct changes the set)')
@@ -367,14 +391,13 @@ def check_guards(ctx, rid, prop):
         # every reviewed site (as its multiset of controlling terms) must still exist; additional sites are new behaviour, not a violation
         # (a site may acquire further controlling tests — e.g. a new early error exit above it — without violating anything:
         #  the reviewed terms must be included in the site's terms)
-        pool = [collections.Counter(x) for x in got]
+        pool = [list(x) for x in got]
         ok = True
         for w in sorted(want, key=lambda x: -len(x)):
-            cw = collections.Counter(w)
             hit = None
             for k, g in enumerate(pool):
-                if not (cw - g):
-                    if hit is None or sum(g.values()) < sum(pool[hit].values()):
+                if _terms_included(w, g):
+                    if hit is None or len(g) < len(pool[hit]):
                         hit = k
             if hit is None:
                 ok = False
@@ -387,9 +410,9 @@ def check_guards(ctx, rid, prop):
                 return a.startswith(('call:', 'field:'))
 
             def flat(sets):
-                return sorted(sorted(set(a for term in x for a in term.split('&') if coarse(a))) for x in sets)
-            keep = set(a for x in want for term in x for a in term.split('&'))
-            got2 = sorted(sorted(a for a in core.expand_atoms(F, set(a for term in x for a in term.split('&') if coarse(a)), keep) if coarse(a)) for x in got)
+                return sorted(sorted(set(a for term in x for a in term.split('@')[0].split('&') if coarse(a))) for x in sets)
+            keep = set(a for x in want for term in x for a in term.split('@')[0].split('&'))
+            got2 = sorted(sorted(a for a in core.expand_atoms(F, set(a for term in x for a in term.split('@')[0].split('&') if coarse(a)), keep) if coarse(a)) for x in got)
             if got2 == flat(want) and got2 != flat(got):
                 ok = True
         r.check(ok, 'guard|%s|%s' % (e['fn'].replace('proto::streams::', ''), e['action']), f.loc(sites[0]),
